@@ -90,6 +90,9 @@ def _const_truth(e):
         if any(v is True for v in vals):
             return True
         return False if all(v is False for v in vals) else None
+    if isinstance(e, ast.Compare) and len(e.ops) == 1 and isinstance(e.left, ast.Name) and isinstance(e.comparators[0], ast.Name) and e.left.id == e.comparators[0].id:
+        # a local compared with itself (after substitution): x == x, x <= x hold, x != x, x < x do not (no NaN among indices / names)
+        return {ast.Eq: True, ast.LtE: True, ast.GtE: True, ast.Is: True, ast.NotEq: False, ast.Lt: False, ast.Gt: False, ast.IsNot: False}.get(type(e.ops[0]))
     if isinstance(e, ast.Compare) and len(e.ops) == 1 and isinstance(e.left, ast.Constant) and isinstance(e.comparators[0], ast.Constant):
         a, b = e.left.value, e.comparators[0].value
         try:
